@@ -63,7 +63,7 @@ func (c *FnCtx) typeAssert(fr *frame, st *State, guard string, x *ssa.TypeAssert
 		c.setVal(fr, x, Tuple{Term{S: fmt.Sprintf("(ite %s %s %s)", ok, v.S, z), Sort: v.Sort, T: x.AssertedType}, Term{S: ok, Sort: SBool}})
 		return
 	}
-	mayPanic := c.prof.IgnorePanics || (fr.con != nil && fr.con.MayPanic)
+	mayPanic := c.prof.IgnorePanics || fr.mayPanic || (fr.con != nil && fr.con.MayPanic)
 	if !mayPanic {
 		c.oblige("typeassert", "typeassert@"+x.Name(), guard, ok, "type assertion "+x.String())
 	} else {
